@@ -496,7 +496,7 @@ class PODReader(Reader):
 
         # To avoid trouble with missing lines, we will construct an
         # array that covers the whole interpolation range.
-        scan_lines = self.scans["scan_line_number"]
+        scan_lines = self.scans["scan_line_number"].astype(int)
         shifted_lines = scan_lines - offset_lines
         shifted_lines_floor = np.floor(shifted_lines).astype(int)
         # compute the line range, note that the max requires a "+1"
